@@ -210,6 +210,11 @@ func (t *Dense) Clone() interface{} {
 		if !t.old.IsZero() {
 			retVal.old = t.old.Clone()
 			t.old.CloneTo(&retVal.old)
+			// the axes of the pending lazy transpose belong to the bookkeeping too (T and the in-place
+			// Transpose consult them): a clone without them is half transposed
+			if t.transposeWith != nil {
+				retVal.transposeWith = append(make([]int, 0, len(t.transposeWith)), t.transposeWith...)
+			}
 		}
 		copyDense(retVal, t)
 		retVal.lock()
